@@ -322,6 +322,7 @@ class _WFile:
         f = d.point(key, 'before')
         if f is not None:
             self._f.close()
+            w.log.add('fs.close', label=self.label, path=self.name, raised=True)
             raise_for(f, d, key, 'before', oserr=True)
         self._f.close()
         w.log.add('fs.close', label=self.label, path=self.name)
@@ -421,6 +422,7 @@ class HookedOSUtils(OSUtils):
         f = d.point(key, 'after')
         if f is not None:
             fobj.close()
+            self.w.log.add('fs.close', label=label, path=filename, raised=True)
             raise_for(f, d, key, 'after', oserr=True)
         if kind == 'w':
             return _WFile(self, fobj, filename, label)
